@@ -246,8 +246,14 @@ def reindex_database(
 
     # When the whole directory is reindexed, pages that no longer exist on
     # disk (deleted or renamed files) must leave the index as well.
+    # That goes for every page the index knows, not only for those in the hash
+    # map: a page that was indexed by an interrupted or refused run is in the
+    # index although its hash was never recorded.
     if not cmd.paths:
-        for zorg_page_name in old_file_to_hash:
+        known_page_names = dict.fromkeys(
+            [*old_file_to_hash, *session.repo.get_page_names()]
+        )
+        for zorg_page_name in known_page_names:
             if zorg_page_name not in file_to_hash:
                 num_of_updates += 1
                 if session.repo.remove_file_by_name(zorg_page_name):
